@@ -701,8 +701,8 @@ impl Mon {
             return;
         }
         let d = &dec.data;
-        if let Err(e) = d.cid_info.verify() {
-            self.report(w, Some(idx), "C03", "cid-store", format!("{e}"));
+        if let Err(e) = crate::monitors4::verify_stores(d) {
+            self.report(w, Some(idx), "C03", "cid-store", e);
             return;
         }
         // independent walker: every CID referenced by the trace is in the right store; group per peer
